@@ -506,6 +506,101 @@ class Program:
             return None
         return None
 
+    def ty_is_copy(self, ty, depth=0):
+        """Is the type `Copy`?  True / False / None (cannot tell)."""
+        if ty is None or depth > 8:
+            return None
+        k = ty.get('k')
+        if k in ('int', 'bool', 'char', 'float', 'never', 'fndef', 'fnptr', 'rawptr', 'ptr'):
+            return True
+        if k == 'ref':
+            return not ty.get('mut')
+        if k == 'tuple':
+            rs = [self.ty_is_copy(x, depth + 1) for x in ty['elems']]
+        elif k == 'closure':
+            rs = [self.ty_is_copy(x, depth + 1) for x in ty.get('upvars', [])]
+        elif k == 'array':
+            rs = [self.ty_is_copy(ty['elem'], depth + 1)]
+        elif k == 'adt':
+            if ty['path'] in ('core::option::Option', 'core::result::Result', 'core::ops::ControlFlow'):
+                rs = [self.ty_is_copy(x, depth + 1) for x in ty['args']]
+            elif ty['path'] == 'core::cmp::Ordering':
+                return True
+            elif self.adts.get(ty['path'], {}).get('local'):
+                for im in self.facts.get('impls', []):
+                    if im.get('trait') in ('core::marker::Copy', 'Copy') and im['self_ty'].get('k') == 'adt' and im['self_ty'].get('path') == ty['path']:
+                        return True
+                return False
+            else:
+                return None
+        else:
+            return None
+        if any(r is False for r in rs):
+            return False
+        if any(r is None for r in rs):
+            return None
+        return True
+
+    def clone_shim(self, self_ty):
+        """Synthesised MIR of rustc's CloneShim for a non-Copy tuple / closure / array: clone field by field through each field's
+        own `Clone::clone` (Copy fields are copied), then build the aggregate."""
+        key = json.dumps(self_ty, sort_keys=True)
+        if not hasattr(self, '_clone_shims'):
+            self._clone_shims = {}
+        if key in self._clone_shims:
+            return self._clone_shims[key]
+        k = self_ty.get('k')
+        if k == 'tuple':
+            ftys = list(self_ty['elems'])
+        elif k == 'closure':
+            ftys = list(self_ty.get('upvars', []))
+        elif k == 'array' and self_ty.get('len') is not None and self_ty['len'] <= 64:
+            ftys = [self_ty['elem']] * self_ty['len']
+        else:
+            self._clone_shims[key] = None
+            return None
+        sp = '<clone shim of %s>' % k
+        locals_ = [{'ty': self_ty, 'name': None}, {'ty': {'k': 'ref', 'mut': False, 'to': self_ty}, 'name': 'self'}]
+        blocks = []
+        ops = []
+
+        def field_place(i, fty):
+            if k == 'array':
+                return {'l': 1, 'p': [{'k': 'deref'}, {'k': 'cindex', 'i': i, 'min_length': i + 1, 'from_end': False}]}
+            return {'l': 1, 'p': [{'k': 'deref'}, {'k': 'field', 'i': i, 'ty': fty}]}
+        cur_stmts = []
+        for i, fty in enumerate(ftys):
+            cp = self.ty_is_copy(fty)
+            if cp is None:
+                self._clone_shims[key] = None
+                return None
+            if cp:
+                ops.append({'k': 'copy', 'pl': field_place(i, fty)})
+                continue
+            r = len(locals_); locals_.append({'ty': {'k': 'ref', 'mut': False, 'to': fty}, 'name': None})
+            c = len(locals_); locals_.append({'ty': fty, 'name': None})
+            cur_stmts.append({'k': 'assign', 'pl': {'l': r, 'p': []}, 'rv': {'k': 'ref', 'mut': False, 'pl': field_place(i, fty)}, 'sp': sp, 'x': True})
+            nested = fty.get('k') in ('tuple', 'closure', 'array')
+            fnref = {'path': 'core::clone::Clone::clone', 'path_inst': '<field %d as Clone>::clone' % i, 'crate': 'core', 'local': False,
+                     'args': [fty], 'unsafe': False, 'intrinsic': False, 'self_kind': 'ref', 'trait': 'core::clone::Clone', 'method': 'clone',
+                     'resolved': ({'path': 'core::clone::Clone::clone', 'path_inst': '<field %d as Clone>::clone' % i, 'local': False, 'kind': 'shim',
+                                   'args': [fty]} if nested else None)}
+            blocks.append({'stmts': cur_stmts, 'term': {'k': 'call', 'fn': {'k': 'const', 'fn': fnref}, 'args': [{'k': 'move', 'pl': {'l': r, 'p': []}}],
+                                                        'dest': {'l': c, 'p': []}, 't': len(blocks) + 1, 'sp': sp, 'x': True}})
+            cur_stmts = []
+            ops.append({'k': 'move', 'pl': {'l': c, 'p': []}})
+        agg = {'k': 'agg', 'kind': 'array' if k == 'array' else k, 'ops': ops}
+        if k == 'closure':
+            agg['path'] = self_ty['path']
+            if self_ty.get('inst'):
+                agg['path_inst'] = self_ty['inst']
+        cur_stmts.append({'k': 'assign', 'pl': {'l': 0, 'p': []}, 'rv': agg, 'sp': sp, 'x': True})
+        blocks.append({'stmts': cur_stmts, 'term': {'k': 'return', 'sp': sp, 'x': True}})
+        f = {'path': 'clone-shim:' + key[:80], 'path_inst': 'clone-shim:' + key, 'vis': 'shim', 'kind': 'Fn', 'name': 'clone', 'derived': True,
+             'body': {'arg_count': 1, 'locals': locals_, 'blocks': blocks}, 'promoted': [], 'sp': sp, 'generics': [], 'tparams': []}
+        self._clone_shims[key] = f
+        return f
+
     def adt(self, path):
         a = self.adts.get(path)
         if a is None:
@@ -1716,23 +1811,33 @@ class Engine:
                 return self.call_closure(selfty['path'] + ('\t' + selfty['inst'] if selfty.get('inst') else ''), cv, args, t, st, fr)
             if not (res is not None and res.get('kind') == 'item' and v is not None and v[0] == 'adt'):
                 raise Undecided('call of an unknown callable %s' % term_str(v), sp)
-        # ---- compiler-generated Clone of closures / tuples / arrays / fn pointers: a structural copy
+        # ---- compiler-generated Clone of closures / tuples / arrays / fn pointers (rustc's CloneShim): a `Copy` type is
+        #      copied bit for bit; otherwise every field is cloned through ITS OWN `Clone` impl, in order
         if fn.get('trait') == 'core::clone::Clone' and fn.get('method') == 'clone' and res is not None and res.get('kind') == 'shim' \
                 and vals and vals[0] is not None and vals[0][0] == 'ref':
-            src = self.get_path(st.store.get(vals[0][1]), vals[0][2], st)
-
-            def plain(x):
-                if x is None:
-                    return False
-                if is_scalar(x) or x[0] in ('ref', 'fn'):
-                    return True
-                if x[0] == 'arr':
-                    return all(plain(y) for y in x[1])
-                if x[0] == 'adt' and (x[1] == '(tuple)' or x[1].startswith('(closure)')):
-                    return all(plain(y) for y in x[3])
-                return False
-            if plain(src):
-                return ret(src)
+            self_ty = (res.get('args') or fn.get('args') or [None])[0]
+            cp = prog.ty_is_copy(self_ty) if self_ty is not None else None
+            if cp is True:
+                return ret(self.get_path(st.store.get(vals[0][1]), vals[0][2], st))
+            if cp is False:
+                body_fn = prog.clone_shim(self_ty)
+                if body_fn is not None:
+                    return self.push_frame(body_fn, vals, t, st, fr)
+            raise Undecided('compiler-generated Clone of %s' % (self_ty.get('k') if self_ty else '?'), sp)
+        # ---- `<[T; N] as Clone>::clone` (library code over raw storage): element by element like the shim above
+        if path == 'core::array::<impl core::clone::Clone for [T; N]>::clone' and vals and vals[0] is not None and vals[0][0] == 'ref' \
+                and res.get('args'):
+            src_ = self.get_path(st.store.get(vals[0][1]), vals[0][2], st)
+            if src_ is not None and src_[0] == 'arr':
+                aty = {'k': 'array', 'elem': res['args'][0], 'len': len(src_[1])}
+                cp = prog.ty_is_copy(aty)
+                if cp is True:
+                    return ret(src_)
+                if cp is False:
+                    body_fn = prog.clone_shim(aty)
+                    if body_fn is not None:
+                        return self.push_frame(body_fn, vals, t, st, fr)
+            raise Undecided('Clone of an array whose element type cannot be classified', sp)
         # ---- dynamic dispatch: resolve through the concrete type recorded at the unsizing coercion
         if res is not None and res.get('kind') == 'virtual' and vals and vals[0] is not None and vals[0][0] == 'dyn':
             ri = prog.resolve_impl(fn.get('trait'), vals[0][2], fn.get('method'))
